@@ -29,9 +29,26 @@ func New(initialData ...WriterToWithDomain) *Hash {
 	hash := &Hash{h: blake3.New()}
 	_, _ = hash.h.WriteString("CMP-BLAKE")
 	for _, d := range initialData {
-		_ = hash.WriteAny(d)
+		hash.writeOrMark(d)
 	}
 	return hash
+}
+
+// writeOrMark writes d to the hash state. New and Fork cannot report an error, but a value that
+// WriteAny refuses (a nil byte slice, an empty ID, ...) must not vanish from the transcript either:
+// a marker naming the refused value's domain is absorbed in its place, so that the transcript with
+// the value never equals the transcript without it, and later values are still written.
+func (hash *Hash) writeOrMark(d interface{}) {
+	if err := hash.WriteAny(d); err != nil {
+		domain := reflect.TypeOf(d).String()
+		// Domain() of a nil pointer may dereference it, so it is only asked of non-nil values
+		if v := reflect.ValueOf(d); v.Kind() != reflect.Ptr || !v.IsNil() {
+			if w, ok := d.(WriterToWithDomain); ok {
+				domain = w.Domain()
+			}
+		}
+		_ = hash.WriteAny(&BytesWithDomain{TheDomain: "refused: " + domain, Bytes: []byte{}})
+	}
 }
 
 // Digest returns a reader for the current output of the function.
@@ -133,6 +150,8 @@ func (hash *Hash) Clone() *Hash {
 // Fork clones this hash, and then writes some data.
 func (hash *Hash) Fork(data ...interface{}) *Hash {
 	newHash := hash.Clone()
-	_ = newHash.WriteAny(data...)
+	for _, d := range data {
+		newHash.writeOrMark(d)
+	}
 	return newHash
 }
